@@ -1016,6 +1016,10 @@ func (s *SQLiteStore) dequeueOnce(req DequeueRequest, batch int, leaseTTL time.D
 		now = s.now()
 	}
 	leaseUntil := now.Add(leaseTTL)
+	// lease_until is stored as Unix nanoseconds; keep it representable.
+	if latest := time.Unix(0, math.MaxInt64).UTC(); leaseUntil.After(latest) {
+		leaseUntil = latest
+	}
 
 	ctx := context.Background()
 	conn, err := s.db.Conn(ctx)
